@@ -206,15 +206,23 @@ func verifHarnessC06WriteEntries() {
 type verifBusySink struct {
 	w      *audit.Writer
 	second *audit.Entry
-	nested bool
-	err2   error
-	writes [][]byte
+	nested  bool
+	err2    error
+	writes  [][]byte
+	mayFail bool
+	failed  bool
 }
 
 func (s *verifBusySink) Write(p []byte) (int, error) {
 	if !s.nested {
 		s.nested = true
 		concurrently(func() { s.err2 = s.w.WriteEntries(s.second) })
+	}
+	if s.mayFail {
+		if nondetBool("sink.write.fail") {
+			s.failed = true
+			return 0, verifErrInjected
+		}
 	}
 	s.writes = append(s.writes, append([]byte(nil), p...)) // the copy into the file happens only now
 	return len(p), nil
@@ -223,7 +231,7 @@ func (s *verifBusySink) Write(p []byte) (int, error) {
 func (s *verifBusySink) Sync() error { return nil }
 
 func verifHarnessC06ConcurrentWriters() {
-	sink := &verifBusySink{}
+	sink := &verifBusySink{mayFail: nondetBool("sink.may.fail")}
 	w := audit.New(sink)
 	sink.w = w
 	e1 := &audit.Entry{Secret: nondetString("secret1"), Action: acl.ActionGet, Authorized: nondetBool("auth1")}
@@ -234,6 +242,12 @@ func verifHarnessC06ConcurrentWriters() {
 	err1 := w.WriteEntries(e1)
 	joinConcurrent()
 	raceEnd()
+	if sink.failed {
+		// a failing sink: the two calls must still not touch the writer's memory unsynchronised (checked by raceEnd above)
+		assert("failing-sink-is-reported", or(err1 != nil, sink.err2 != nil))
+		reach("end-failed")
+		return
+	}
 	assert("both-calls-succeed", and(err1 == nil, sink.err2 == nil))
 	got1, got2, other := 0, 0, 0
 	for _, rec := range sink.writes {
